@@ -737,6 +737,50 @@ func (t *runner[K]) verify(id string, r *pdf.Reader, ref pdf.Reference, keys []K
 		e.Line("impl.obs", "%s raw size=%d valid=%d enum=%d look=%s", id2, size, valid, enum, look)
 	}
 
+	// --- the sequences the readers return are values: abandon a pass, look keys up in
+	// between, range again over the same value - every pass is the whole enumeration
+	for which, mk := range map[string]func(pdf.Getter, pdf.Object) (tree[K], error){"FromFile": kd.fromFile, "InMemory": kd.inMemory} {
+		tr, _ := mk(r, root)
+		if tr == nil {
+			continue
+		}
+		seq := tr.All()
+		pass := func(s iter.Seq2[K, pdf.Object], stopAfter int) (uint64, int) {
+			h, i := uint64(7), 0
+			for k, v := range s {
+				if i == stopAfter {
+					break
+				}
+				if i == 1 && len(probes) > 0 {
+					tr.Lookup(probes[0])
+				}
+				vi, _ := v.(pdf.Integer)
+				h = hashStr(hashStr(hashStr(hashStr(h, kd.tok(k)), ":"), strconv.FormatInt(int64(vi), 10)), ";")
+				i++
+			}
+			return h, i
+		}
+		h1, n1 := enum, size
+		if len(keys) <= 1000 {
+			h1, n1 = pass(seq, -1)
+		}
+		pass(seq, len(keys)/2)
+		h2, n2 := pass(seq, -1)
+		h3, n3, h4, n4 := h1, n1, h1, n1
+		if len(keys) <= 1000 {
+			pass(seq, 1)
+			h3, n3 = pass(seq, -1)
+			h4, n4 = pass(tr.All(), -1)
+		}
+		if h1 != enum || n1 != size || h2 != h1 || n2 != n1 || h3 != h1 || n3 != n1 || h4 != h1 || n4 != n1 {
+			c2 := map[string]any{"reader": which, "passes": []int{n1, n2, n3, n4}}
+			for k, v := range cs {
+				c2[k] = v
+			}
+			e.Fail("iterator-reuse", which+".All: ranging again over the same sequence (after an abandoned pass, with Lookup in between) does not give the whole enumeration", c2)
+		}
+	}
+
 	// --- the property, directly on the implementation
 	if len(all) != len(keys) || !slices.Equal(all, keys) {
 		e.Fail("enumeration", "All() does not enumerate the stored entries once, in ascending key order", cs)
@@ -1520,13 +1564,13 @@ func runKind[K cmp.Ordered](e *common.Env, kd *kind[K], id *int,
 		t.testWrite(ks, probes(t, ks, 30, 30), kd.writeMap != nil && e.Rand.IntN(3) == 0, "random-size", t.nextCfg())
 	}
 	// keys that are not strictly increasing must be refused
-	for i := 0; i < e.Pick(120, 2000); i++ {
+	for i := 0; i < e.Pick(90, 2000); i++ {
 		n := 2 + e.Rand.IntN(200)
 		ks := perturb(e, set(t, n, e.Rand.IntN(3)))
 		t.testWrite(ks, nil, false, "unsorted", t.nextCfg())
 	}
 	// hand-built trees: valid ones of other shapes, and mutated ones
-	for i := 0; i < e.Pick(400, 8000); i++ {
+	for i := 0; i < e.Pick(300, 8000); i++ {
 		n := 1 + e.Rand.IntN(120)
 		if e.Rand.IntN(10) == 0 {
 			n = 200 + e.Rand.IntN(600)
@@ -1573,6 +1617,6 @@ func main() {
 	e.Finish("key sets: every size 0..200 (thorough 0..600), sizes at the boundaries of 64, 63*64 and 64*64 up to 6000 (thorough 20000), random sizes; "+
 		"names over arbitrary bytes (empty name, prefixes and 00/FF extensions of each other, all strings over {00,FF}, key%04d), integers incl. int64 extremes, dense and sparse; "+
 		"probes: present keys (all for small sets), below the minimum, above the maximum, immediate successors, prefixes, random; "+
-		"written with the real Write/WriteMap in eight writer configurations (PDF 1.4/1.7/2.0, HumanReadable, seekable or not, while a stream is open on the same Writer so that Put defers the node objects, a second tree written from inside the iterator of the first), file reopened; unsorted/duplicate key sequences; hand-built valid and mutated trees for the readers; histories on one InMemory value (enumerate / Lookup / Write / Embed interleaved with add, delete, replace-key-same-count and update-value on its Data map); graphs of node objects (kids shared, listed twice, cyclic, dangling, not dictionaries; chains of diamonds and ladders of up to 300 levels) read under a watchdog; "+
+		"written with the real Write/WriteMap in eight writer configurations (PDF 1.4/1.7/2.0, HumanReadable, seekable or not, while a stream is open on the same Writer so that Put defers the node objects, a second tree written from inside the iterator of the first), file reopened; unsorted/duplicate key sequences; hand-built valid and mutated trees for the readers; every returned iter.Seq2 ranged four times (abandoned passes, Lookup in between); histories on one InMemory value (enumerate / Lookup / Write / Embed interleaved with add, delete, replace-key-same-count and update-value on its Data map); graphs of node objects (kids shared, listed twice, cyclic, dangling, not dictionaries; chains of diamonds and ladders of up to 300 levels) read under a watchdog; "+
 		"non-trivial = more than one key (W cases) or any hand-built tree, distinct by key set / tree", nil)
 }
